@@ -192,6 +192,10 @@ func init() {
 		m.mapOrderFixed = a[0].(*Term).IsTrue()
 		return nil
 	})
+	regHarness("vFixMapOrderType", func(m *Machine, fr *frame, a []Value) Value {
+		m.fixedOrderTypes = append(m.fixedOrderTypes, m.argStr(a[0], "vFixMapOrderType"))
+		return nil
+	})
 	regHarness("vSymbolic", func(m *Machine, fr *frame, a []Value) Value { return tTrue })
 	regHarness("vIsConcrete", func(m *Machine, fr *frame, a []Value) Value {
 		switch v := a[0].(Iface).V.(type) {
